@@ -320,13 +320,20 @@ def scratch_dir(tag):
 MODS = ["duct", "hseq", "optics", "pipe", "pure", "trait"]
 
 
+MODPATH = {"pipe": "github.com/fogfish/golem/pipe/v2"}
+
+
+def modpath(m):
+    return MODPATH.get(m, "github.com/fogfish/golem/" + m)
+
+
 def write_gomod(d, module, requires=(), extra_replace=()):
-    """go.mod whose golem requirements all resolve to /repo's working tree"""
+    """go.mod whose golem requirements all resolve to /repo's working tree (never the module cache)"""
     lines = ["module %s" % module, "", "go 1.24", ""]
     for m in requires:
-        lines.append("require github.com/fogfish/golem/%s v0.0.0" % m)
+        lines.append("require %s %s" % (modpath(m), "v2.0.0" if m == "pipe" else "v0.0.0"))
     for m in MODS:
-        lines.append("replace github.com/fogfish/golem/%s => %s/%s" % (m, REPO, m))
+        lines.append("replace %s => %s/%s" % (modpath(m), REPO, m))
     for a, b in extra_replace:
         lines.append("replace %s => %s" % (a, b))
     with open(os.path.join(d, "go.mod"), "w") as f:
@@ -340,6 +347,22 @@ def write_gomod(d, module, requires=(), extra_replace=()):
                 sums.update(l for l in f.read().split("\n") if l.strip())
     with open(os.path.join(d, "go.sum"), "w") as f:
         f.write("\n".join(sorted(sums)) + "\n")
+
+
+def stage_internal(tag, packages, harness_files, extra_files=()):
+    """Scratch module `github.com/fogfish/golem` holding copies of /repo/internal/<pkg> (which are
+    outside every module) under the import paths their sources declare, plus harness sources.
+    packages: [(repo-relative dir, staged dir)], harness_files/extra_files: [(abs src, staged rel path)].
+    The caller removes the directory."""
+    d = scratch_dir(tag)
+    for src, dst in packages:
+        shutil.copytree(os.path.join(REPO, src), os.path.join(d, dst),
+                        ignore=shutil.ignore_patterns("*_test.go"))
+    for src, dst in list(harness_files) + list(extra_files):
+        os.makedirs(os.path.dirname(os.path.join(d, dst)), exist_ok=True)
+        shutil.copy(src, os.path.join(d, dst))
+    write_gomod(d, "github.com/fogfish/golem", requires=["pure"])
+    return d
 
 
 def go_build(d, pkg, out, tags="verif", test=False, race=False, timeout=900):
